@@ -29,6 +29,7 @@ pub fn cells(tier: Tier) -> Vec<CellPlan> {
                 EvOp::EmitS(SK::T1, Mode::Broadcast, Some(1)),
                 EvOp::EmitS(SK::EM, Mode::Broadcast, Some(0)),
                 EvOp::EmitS(SK::EI, Mode::Broadcast, None),
+                EvOp::EmitS(SK::TM, Mode::Broadcast, Some(1)),
             ],
             rounds: if q || clients == 2 { 3 } else { 4 },
             tick_choice: true,
